@@ -357,6 +357,7 @@ func init() {
 		Rules: []Rule{
 			{"single-line", "the text of a table cell loses its line breaks on every path; the text of a heading never passes a function that inserts line breaks (both are one-line constructs: a break splits the row / cuts the heading)", ruleSingleLine},
 			{"export-order", "emission driven by the ordered element list", ruleExportOrder},
+			{"fence-verbatim", "a function that writes a fenced code block never reaches a backslash-escaper (text between fences is literal)", ruleFenceVerbatim},
 			{"export-esc/text", "run text escaped and emitted once", ruleExportEsc},
 			{"export-pure", "exporting never writes into the document (mutation summaries)", ruleExportPure},
 			{"pool-escape", "nothing taken from a package-level sync.Pool is returned to callers", rulePoolEscape(pkgMd)},
